@@ -1,6 +1,6 @@
 (* C32 - Crashes never leave files that later builds trust wrongly.
    This file holds only the statement, the property theorems and their non-vacuity examples. *)
-From PlzV Require Import Base.Harness Model.C32 Model.C32_Tmp Proof.C32 Proof.C32_Order Proof.C32_Tmp Gen.C32Order.
+From PlzV Require Import Base.Harness Model.C32 Model.C32_Tmp Model.C32_Hash Proof.C32 Proof.C32_Order Proof.C32_Tmp Proof.C32_Hash Gen.C32Order.
 
 (* "If plz is killed at any moment during a build, the next `plz build` of the same tree produces outputs
    identical to a clean build.  Partially written outputs, metadata or hash records are never taken as up to date."
@@ -101,7 +101,82 @@ Theorem C32_tmp_source :
 Proof. exact tmp_source_order. Qed.
 Print Assumptions C32_tmp_source.
 
+(* ------------------------------------------------------------------------------------------ *)
+(* Follow-up 2: targets with pinned `hashes`.
+
+   "Partially written outputs, metadata or hash records are never taken as up to date" includes the output that was
+   moved into plz-out but has NOT passed the verification against the target's pinned hashes: needsBuilding never
+   looks at `hashes`, so the only protection is that no record is written for such an output.  The phases of
+   calculateAndCheckRuleHash (output hash; checkRuleHashes; writeRuleHash), whether checkRuleHashes' error is
+   returned, and Build's error path (RemoveOutputs) are regenerated from the source on every run (gen_phases,
+   C32Order.calc_check_returns, C32Order.build_on_error).
+
+   (1) outputs that do NOT match the pinned hashes: for every target shape, every build, every start state without a
+       current record (the empty plz-out; whatever a failed build leaves; any other tree's plz-out), every history of
+       builds (normal or --rebuild) each killed after any number of the steps [metadata; outputs; output hash;
+       (check fails); RemoveOutputs]: the next normal build rebuilds the target, fails with "Bad output hash" and
+       leaves none of its outputs - what the clean build does;
+   (2) outputs that match: the steps are those of C32_statement, whose conclusion carries over. *)
+Definition C32_hash_statement : Prop :=
+  (forall t b s0 evs, no_cur (b_cur b) s0 ->
+     let bad := C32Order.calc_check_returns false false true in
+     exists s' c,
+       hrecover gen_phases bad t b (hafter gen_phases bad t b evs s0) = OBadHash s'
+       /\ hclean gen_phases bad t b = OBadHash c
+       /\ visible t b s' = visible t b c
+       /\ visible t b s' = map (fun _ => None) (all_outs t b))
+  /\
+  (forall t b s0 evs, trusted t b s0 ->
+     exists s', hrecover gen_phases false t b (hafter gen_phases false t b evs s0) = OBuilt s' /\ good_end t b s').
+
+Theorem C32_hash_full : C32_hash_statement.
+Proof. exact (conj bad_hash_histories_src good_hash_histories). Qed.
+Print Assumptions C32_hash_full.
+
+(* the same for EVERY order of the three phases in which the check precedes the record (and one killed build keeps
+   the invariant `no current record`, whatever the kill point) *)
+Theorem C32_hash_any_order : forall ph t b s0 evs k,
+  check_first ph = true -> no_cur (b_cur b) s0 ->
+  (exists s' c,
+     hrecover ph true t b (hafter ph true t b evs s0) = OBadHash s'
+     /\ hclean ph true t b = OBadHash c
+     /\ visible t b s' = visible t b c
+     /\ visible t b s' = map (fun _ => None) (all_outs t b))
+  /\ no_cur (b_cur b) (hcrash ph true k t b s0)
+  /\ decide t (with_force b false) (hcrash ph true k t b s0) = Rebuild.
+Proof.
+  exact (fun ph t b s0 evs k H Hs => conj (bad_hash_histories ph t b s0 evs H Hs) (bad_hash_build_one ph t b s0 k H Hs)).
+Qed.
+Print Assumptions C32_hash_any_order.
+
+(* the order, the error return and the error path are those of the source (Gen/C32Order.v) *)
+Theorem C32_hash_source :
+  gen_phases = src_phases
+  /\ check_first gen_phases = true
+  /\ (forall a b c, C32Order.calc_check_returns a b c = check_returns a b c)
+  /\ C32Order.build_on_error = ["buildTarget"; "RemoveOutputs"]
+  /\ C32Order.remove_outputs = ["fs.RemoveAll"; "fs.EnsureDir"]
+  /\ C32Order.calc_record_guard = "!target.IsFilegroup".
+Proof. exact (conj gen_phases_src (conj gen_check_first (conj gen_check_returns gen_error_path))). Qed.
+Print Assumptions C32_hash_source.
+
 (* Non-vacuity. *)
+
+(* the hypothesis of C32_hash_full (1) holds of the empty plz-out; the order matters: with the record hoisted above
+   the check (seeded change r2-m1: [hash; record; check]) the first build of //:vendor (one output, 12 steps) killed
+   after 9 steps - record on the output, just before the lsetxattr on the metadata file - leaves the unverified
+   output (content 7) in place and the next build reports it unchanged, where the clean build fails with "Bad
+   output hash"; with the order of the source every kill point ends in "Bad output hash". *)
+Example C32_hash_nonvacuous :
+  no_cur (b_cur hb) empty_st
+  /\ check_first ph_m1 = false
+  /\ length (hbuild_steps ph_m1 true ht hb empty_st) = 12
+  /\ is_built (hrecover ph_m1 true ht hb (hcrash ph_m1 true 9 ht hb empty_st)) = true
+  /\ visible ht hb (hcrash ph_m1 true 9 ht hb empty_st) = [Some 7%N]
+  /\ outcome_badhash (hclean ph_m1 true ht hb) = true
+  /\ forallb (fun k => outcome_badhash (hrecover src_phases true ht hb (hcrash src_phases true k ht hb empty_st))) (seq 0 12) = true.
+Proof. exact (conj (no_cur_empty _) m1_order_refuted). Qed.
+
 
 (* the hypotheses of C32_tmp_full hold for the append command (cat a >> acc; cat b >> acc; cat acc > out) with the
    empty plz-out; a build killed after its first append leaves acc = "alpha" behind; the next build still ends
